@@ -90,19 +90,21 @@ PresenceStructs2 == {d \in {MkStruct(ra, cd, <<Styled(v1, 1), Styled(v2, 2)>>)
 \* ------------------------------------------------------------------ enums
 Taggings == {"external", "internal", "adjacent", "untagged"}
 MkVariant(v, i) == [name |-> StyleName(v.style), style |-> v.style, shape |-> v.shape, payload |-> v.payload,
-                    rename |-> RenameOf(v.rclass, i), rclass |-> v.rclass]
+                    rename |-> RenameOf(v.rclass, i), rclass |-> v.rclass, vra |-> v.vra]
 MkEnum(ra, tg, vs) == [kind |-> "enum", ra |-> ra, tagging |-> tg, variants |-> [i \in DOMAIN vs |-> MkVariant(vs[i], i)]]
-VShape(sh, pl) == [style |-> "A", shape |-> sh, payload |-> pl, rclass |-> "none"]
+VShape(sh, pl) == [style |-> "A", shape |-> sh, payload |-> pl, rclass |-> "none", vra |-> "none"]
 VShapes == {VShape("unit", "none"), VShape("newtype", "str"), VShape("newtype", "inner"), VShape("struct", "none"), VShape("empty", "none")}
 VPosStyle == <<"FooBar", "A", "Nt2X">>
 VStyled(v, i) == [v EXCEPT !.style = VPosStyle[i]]
 WFEnum(d) ==
   /\ \A i \in DOMAIN d.variants : LET v == d.variants[i] IN
         /\ (v.shape = "newtype") = (v.payload # "none")
+        /\ (v.vra # "none" => v.shape = "struct")
         /\ (d.tagging = "internal" /\ v.shape = "newtype" => v.payload = "inner")   \* serde cannot tag a string
   /\ \A i, j \in DOMAIN d.variants : i # j => VariantTag(d, i) # VariantTag(d, j)
   \* untagged: reading picks the first variant that fits, so the shapes must be distinguishable
-  /\ (d.tagging = "untagged" => \A i, j \in DOMAIN d.variants : i # j =>
+  \* (several unit variants are all written `null` and all read back as the first of them: nothing to tell apart, and nothing is probed)
+  /\ (d.tagging = "untagged" => \A i, j \in DOMAIN d.variants : i # j /\ ~(d.variants[i].shape = "unit" /\ d.variants[j].shape = "unit") =>
           /\ <<d.variants[i].shape, d.variants[i].payload>> # <<d.variants[j].shape, d.variants[j].payload>>
           \* (an untagged `V {}` reads any object: it only goes with variants that are not objects)
           /\ (d.variants[i].shape = "empty" => d.variants[j].shape = "unit" \/ d.variants[j].payload = "str"))
@@ -111,6 +113,12 @@ EnumsMixed(ras) == {d \in {MkEnum(ra, tg, <<VStyled(VShape("struct", "none"), 1)
                       : WFEnum(d)}
 EnumsUnit(ras) == {d \in {MkEnum(ra, tg, <<VStyled(VShape("unit", "none"), 1), VStyled(VShape("unit", "none"), 2),
                                            VStyled(VShape("unit", "none"), 3)>>) : ra \in ras, tg \in Taggings} : WFEnum(d)}
+\* two struct variants, one of them with a `rename_all` of its own (first or second), and a unit variant behind them
+EnumsVra(ras, vras) == {d \in {MkEnum(ra, tg, <<VStyled([VShape("struct", "none") EXCEPT !.vra = r1], 1), VStyled([VShape("struct", "none") EXCEPT !.vra = r2], 2),
+                                              VStyled(VShape("unit", "none"), 3)>>)
+                              : ra \in ras, tg \in Taggings, r1 \in vras \cup {"none"}, r2 \in vras \cup {"none"}} : WFEnum(d) /\ (\E i \in DOMAIN d.variants : d.variants[i].vra # "none")}
+\* an untagged enum with two unit variants among others
+EnumsNulls == {d \in {MkEnum("none", "untagged", <<VStyled(VShape("unit", "none"), 1), VStyled(v, 2), VStyled(VShape("unit", "none"), 3)>>) : v \in VShapes} : WFEnum(d)}
 Enums1(ras, rcs, styles) == {d \in {MkEnum(ra, tg, <<[v EXCEPT !.rclass = rc, !.style = st]>>)
                                       : ra \in ras, tg \in Taggings, v \in VShapes, rc \in rcs, st \in styles} : WFEnum(d)}
 Enums2(ras, rcs) == {d \in {MkEnum(ra, tg, <<VStyled([v1 EXCEPT !.rclass = rc], 1), VStyled(v2, 2)>>)
@@ -122,7 +130,9 @@ QuickDefs == PairStructs
              \cup Structs3({<<"PascalCase", FALSE>>})
              \cup EnumsMixed(Rules) \cup EnumsUnit(Rules)
              \cup Enums1({"none"}, {"none", "plain"}, {"FooBar"})
+             \cup EnumsVra({"none", "snake_case"}, {"camelCase", "SCREAMING_SNAKE_CASE"}) \cup EnumsNulls
 DeepDefs == QuickDefs
+            \cup EnumsVra(Rules, {"camelCase", "PascalCase", "kebab-case"})
             \cup NameStructs \cup PresenceStructs1 \cup PresenceStructs2
             \cup Structs2({<<"SCREAMING_SNAKE_CASE", TRUE>>, <<"none", FALSE>>})
             \cup Structs3({<<"camelCase", TRUE>>})
@@ -130,6 +140,7 @@ DeepDefs == QuickDefs
             \cup Enums2(Rules, {"none", "plain"})
 McDefs == PairStructs \cup Structs2({<<"camelCase", TRUE>>}) \cup Structs3({<<"PascalCase", FALSE>>})
           \cup EnumsMixed(Rules) \cup EnumsUnit({"none", "snake_case"}) \cup Enums2({"none", "kebab-case"}, {"none", "plain"})
+          \cup EnumsVra({"none"}, {"camelCase"}) \cup EnumsNulls
 Defs == CASE TIER = "quick" -> QuickDefs [] TIER = "deep" -> DeepDefs [] TIER = "mc" -> McDefs
 
 \* non-trivial by a stated rule: the definition carries an attribute or shape that changes serde's wire form
